@@ -119,6 +119,13 @@ func c03Sigs(w *World, sanitize bool, res *merger.MergeResult) []string {
 			}
 		}
 	}
+	// so does every introspection operation (valid against every service, whatever it declares)
+	for _, q := range []string{"{ __schema { queryType { name } } }", "{ __type(name: \"Query\") { fields { name } } }", "{ __typename }"} {
+		if _, errs := gqlparser.LoadQuery(res.Schema, q); errs != nil {
+			set["operation valid for a service is invalid for the gateway: "+Template(errs[0].Message)] = true
+			break
+		}
+	}
 	return setToList(set)
 }
 
@@ -392,6 +399,16 @@ func conflictAtoms() []ConflictAtom {
 			ss[si].Query = append(ss[si].Query, fmt.Sprintf("uu%d: UU", si))
 		}
 	}, true})
+	out = append(out, ConflictAtom{"union-member-subset", func(ss []*SvcSpec) {
+		// the member list of one service is a strict subset of the other's
+		for si, ms := range [][]string{{"B1", "B2", "B3"}, {"B1", "B2"}} {
+			for _, m := range ms {
+				ss[si].addType(m, "", "b: Int")
+			}
+			ss[si].Extra = append(ss[si].Extra, "union UW = "+strings.Join(ms, " | "))
+			ss[si].Query = append(ss[si].Query, fmt.Sprintf("uw%d: UW", si))
+		}
+	}, true})
 	// acceptable differences: judged for permutation invariance only
 	out = append(out, ConflictAtom{"ok:enum-more-values", func(ss []*SvcSpec) {
 		ss[0].Extra = append(ss[0].Extra, "enum EE { A B }")
@@ -518,14 +535,16 @@ func init() {
 
 	c04 := mk("C04")
 	c04.Rule = "same schema-set enumeration as C03; oracle on MergeResult.TypeURLMap: every root field routed to exactly the one declaring service, every non-id field of every object type routed to a service whose SDL declares it, " +
-		"IsImplementsNode <=> implements Node, GetURLs() == services that contributed fields, no unrouted field; non-trivial = >=2 services"
+		"IsImplementsNode <=> implements Node, GetURLs() == services that contributed fields, no unrouted field; plus a start-up part: the gateway is constructed through the real ParallelRemoteSchemaIntrospector over 7 schema sets with no or one service " +
+		"failing its introspection (each position), refusing to start is accepted, a gateway that starts is held to the same oracle over the services that answered; non-trivial = >=2 services"
 	c04.Assumptions = []string{"the services' SDL is the ground truth for ownership"}
 	c04.RunJob = func(tier, job string, from int, em *Emitter) { mergeRun("C04", tier, job, from, em) }
+	c04.Jobs = func(tier string) []string { return append([]string{"introfail"}, mergeJobs(tier, "C04")...) }
 	Props["C04"] = c04
 
 	c05 := mk("C05")
-	c05.Rule = "case = (mergeable schema set (base + <=2 (thorough 3) world atoms), one conflict atom out of 42: same root field twice (query, mutation), one name two kinds (all 15 kind pairs), Node in one service only, Node type with duplicated field, " +
-		"shared type/input partial overlap or subset, shared (input) field with different type/nullability/list wrapper/argument name/type/default, union with different members; plus 4 acceptable differences) x all permutations of the service list; " +
+	c05.Rule = "case = (mergeable schema set (base + <=2 (thorough 3) world atoms), one conflict atom out of 43: same root field twice (query, mutation), one name two kinds (all 15 kind pairs), Node in one service only, Node type with duplicated field, " +
+		"shared type/input partial overlap or subset, shared (input) field with different type/nullability/list wrapper/argument name/type/default, union with different members (overlapping, and one list a strict subset of the other); plus 4 acceptable differences) x all permutations of the service list; " +
 		"oracle: Merge returns an error for a conflict (no panic, no silent success), accept/reject identical across permutations, and on accept canonical facts and Node-field routes identical across permutations; " +
 		"the mergeable sets themselves are also checked for permutation invariance; non-trivial = a conflict atom was applied"
 	c05.Assumptions = []string{"the conflict catalogue is exactly the list in the property statement"}
@@ -533,7 +552,77 @@ func init() {
 	Props["C05"] = c05
 }
 
+// introFailWorlds are the schema sets of the start-up part: one service does not answer its
+// introspection while the gateway is constructed.
+var introFailWorlds = []string{"W0", "Wmin", "W0+third-service", "Wmin+third-service", "W0+mutation-second-service", "W0+third-service+service-without-node", "W0+shared-value-type"}
+
+// c04IntroFail: the gateway is constructed through the real introspector with one service down.
+// Refusing to start is fine; a gateway that does start must route every field to a service that
+// declares it, and exactly the services that delivered a schema with fields are routed to.
+func c04IntroFail(from int, em *Emitter) {
+	idx := 0
+	for _, wn := range introFailWorlds {
+		parts := strings.Split(wn, "+")
+		wd := WorldDesc{Base: parts[0], Atoms: parts[1:]}
+		w, err := wd.Build()
+		if err != nil {
+			em.GenError(err.Error())
+			continue
+		}
+		for k := 0; k <= len(w.Services); k++ {
+			for _, sanitize := range []bool{false, true} {
+				idx++
+				if idx-1 < from {
+					continue
+				}
+				cfg := Config{Merger: "extend", Planner: "plain", IntroFail: k}
+				if k == 0 {
+					cfg.IntroFail = -1
+				}
+				if sanitize {
+					cfg.Merger = "sanitize"
+				}
+				atoms := append(append([]string{}, w.Atoms...), cfg.Atoms()...)
+				atoms = append(atoms, "startup-through-real-introspector")
+				rp := map[string]interface{}{"world": wd.Name(), "cfg": cfg.String()}
+				if !em.Begin(idx-1, atoms, rp) {
+					if em.Capped() {
+						return
+					}
+					continue
+				}
+				f, err := NewFed(w, cfg)
+				var sigs []string
+				switch {
+				case err != nil && k == 0:
+					sigs = []string{"mergeable set rejected: " + Template(err.Error())}
+				case err != nil:
+					// the gateway does not start without the service
+				default:
+					w2 := *w
+					w2.Services = nil
+					for i, sv := range w.Services {
+						if i != k-1 {
+							w2.Services = append(w2.Services, sv)
+						}
+					}
+					sigs = c04Sigs(&w2, &merger.MergeResult{Schema: f.GWSchema, TypeURLMap: f.TUM})
+				}
+				if len(sigs) > 0 {
+					em.Fail(atoms, sigs, rp)
+				}
+				em.Sample(rp)
+				em.Done(true)
+			}
+		}
+	}
+}
+
 func mergeRun(prop, tier, job string, from int, em *Emitter) {
+	if job == "introfail" {
+		c04IntroFail(from, em)
+		return
+	}
 	ws := worldsOfJob(job)
 	idx := 0
 	for _, wd := range ws {
